@@ -298,7 +298,8 @@ func (v *VStruct) exist(isValidTvKind bool, structName, fieldName, cusMsg string
 		if tv.Type() == timeReflectType {
 			return
 		}
-		v.validate(structName+"."+fieldName, tv, false)
+		// required 下的非结构体指针(如: *int)已满足必填, 不再当作嵌套结构体验证
+		v.validate(structName+"."+fieldName, tv, !isValidTvKind)
 	case reflect.Slice, reflect.Array:
 		for i := 0; i < tv.Len(); i++ {
 			v.validate(structName+"."+fieldName+"["+ToStr(i)+"]", tv.Index(i), true)
